@@ -201,6 +201,95 @@ def enum_small(tier):
                 yield dict(kind='shipped', lib=L, smiles=smi)
 
 
+# -- coverage-guided search over molecules: the reference interpreter's pattern hits are the coverage signal -------------
+def mutate(smi, rnd, metal, gas):
+    """one random structural edit of a molecule (add atom, raise a bond order, close a ring, remove an H, bind a metal,
+    delete a terminal atom); returns a new SMILES or None"""
+    from rdkit import Chem
+    mol = Chem.MolFromSmiles(smi)
+    if mol is None:
+        return None
+    rw = Chem.RWMol(mol)
+    withH = [a.GetIdx() for a in rw.GetAtoms() if a.GetTotalNumHs() > 0 and a.GetSymbol() in ('C', 'O', 'N')]
+    op = rnd.choice(['add', 'add', 'add', 'bond', 'ring', 'radical', 'metal' if metal else 'add', 'delete', 'metal' if metal else 'bond'])
+    try:
+        if op == 'add' and withH:
+            i = rnd.choice(withH)
+            j = rw.AddAtom(Chem.Atom(rnd.choice(['C', 'C', 'C', 'O'] + (['N'] if gas else []))))
+            order = rnd.choice([1, 1, 1, 2, 3])
+            order = min(order, rw.GetAtomWithIdx(i).GetTotalNumHs(), {6: 4, 8: 2, 7: 3}[rw.GetAtomWithIdx(j).GetAtomicNum()] )
+            rw.AddBond(i, j, {1: Chem.BondType.SINGLE, 2: Chem.BondType.DOUBLE, 3: Chem.BondType.TRIPLE}[max(1, order)])
+        elif op == 'bond':
+            cand = [b for b in rw.GetBonds() if b.GetBondType() in (Chem.BondType.SINGLE, Chem.BondType.DOUBLE) and not b.GetIsAromatic()
+                    and b.GetBeginAtom().GetTotalNumHs() > 0 and b.GetEndAtom().GetTotalNumHs() > 0]
+            if not cand:
+                return None
+            b = rnd.choice(cand)
+            b.SetBondType(Chem.BondType.DOUBLE if b.GetBondType() == Chem.BondType.SINGLE else Chem.BondType.TRIPLE)
+        elif op == 'ring' and len(withH) >= 2:
+            i, j = rnd.sample(withH, 2)
+            if rw.GetBondBetweenAtoms(i, j) is not None or len(Chem.GetShortestPath(rw, i, j)) < 3:
+                return None
+            rw.AddBond(i, j, Chem.BondType.SINGLE)
+        elif op == 'radical' and withH:
+            a = rw.GetAtomWithIdx(rnd.choice(withH))
+            h = a.GetTotalNumHs()
+            a.SetNoImplicit(True)
+            a.SetNumExplicitHs(h - 1)
+            a.SetNumRadicalElectrons(a.GetNumRadicalElectrons() + 1)
+        elif op == 'metal' and withH:
+            i = rnd.choice(withH)
+            j = rw.AddAtom(Chem.Atom(metal))
+            rw.AddBond(i, j, Chem.BondType.SINGLE)
+        elif op == 'delete' and rw.GetNumAtoms() > 1:
+            term = [a.GetIdx() for a in rw.GetAtoms() if a.GetDegree() == 1]
+            if not term:
+                return None
+            rw.RemoveAtom(rnd.choice(term))
+        else:
+            return None
+        m2 = rw.GetMol()
+        Chem.SanitizeMol(m2)
+        if m2.GetNumHeavyAtoms() > 16 or len(Chem.GetMolFrags(m2)) > 1:
+            return None
+        return Chem.MolToSmiles(m2)
+    except Exception:
+        return None
+
+
+def run_guided(ctx, fam, n):
+    """per shard: a corpus per scheme, grown whenever a mutant makes the reference interpreter hit a pattern it had not hit"""
+    import random
+    rnd = random.Random(ctx.hseed('guided'))
+    libs = [L for k, L in enumerate(shipped.LIBS) if k % ctx.nshards == ctx.shard % len(shipped.LIBS) or ctx.nshards == 1] or \
+        [shipped.LIBS[ctx.shard % len(shipped.LIBS)]]
+    for L in libs:
+        ref, h = ref_scheme(L)
+        real = real_scheme(L)
+        gas = L in ('BensonGA', 'PPY')
+        metal = None if gas else ('Ru' if L == 'XieGA2022' else 'Pt')
+        corpus = ['CC', 'C=CC', 'CCO', 'CC=O', 'c1ccccc1', 'C1CCCCC1', 'CC(C)C'] + ([] if gas else ['C[%s]' % metal, '[%s]CC[%s]' % (metal, metal), 'OC[%s]' % metal])
+        corr = set(nm for nm, _ in ref.desc)
+        before = len(ref.hits)
+        for it in range(n):
+            base = rnd.choice(corpus)
+            smi = base
+            for _ in range(rnd.choice([1, 1, 2, 3])):
+                smi = mutate(smi, rnd, metal, gas) or smi
+            if smi == base or molgen.has_fused_aromatic(smi):
+                continue
+            nh = len(ref.hits)
+            ctx.begin('coverage-guided', dict(kind='shipped', lib=L, smiles=smi))
+            res, want = compare(ctx, real.GetDescriptors, ref, smi, L, corr_names=corr)
+            ctx.case(nontrivial=True, key=[h, smi], sample=dict(scheme=L, smiles=smi, found_by='coverage-guided mutation of %s' % base))
+            ctx.event('guided:cases')
+            if len(ref.hits) > nh:
+                corpus.append(smi)
+                ctx.event('guided:new-pattern-hit')
+        ctx.event('guided:patterns-gained', len(ref.hits) - before)
+    coverage_note(ctx)
+
+
 def synthetic_strategy(tier):
     from props.C02_synth import scheme_case
     return scheme_case()
@@ -210,4 +299,5 @@ FAMILIES = [
     Family('shipped-schemes', check_any, strategy=lambda tier: shipped_case(), n=(1400, 30000)),
     Family('synthetic-schemes', check_any, strategy=synthetic_strategy, n=(400, 8000)),
     Family('small-molecules-exhaustive', check_any, enumerate=enum_small),
+    Family('coverage-guided', check_any, stateful=run_guided, n=(16 * 250, 16 * 6000)),
 ]
